@@ -109,6 +109,13 @@ func (e *Envelope) Sign(key Key) error {
 		return err
 	}
 
+	// SignPayload returns a new envelope that only carries the new signature.
+	// Keep the signatures that were already there.
+	signatures := make([]dsse.Signature, 0,
+		len(e.envelope.Signatures)+len(env.Signatures))
+	signatures = append(signatures, e.envelope.Signatures...)
+	env.Signatures = append(signatures, env.Signatures...)
+
 	e.envelope = env
 	return nil
 }
